@@ -88,6 +88,17 @@ pub struct GenConfig {
     pub max_cycles: usize,
     /// Iteration bound built into WHILE/REPEAT guards and FOR ranges.
     pub max_loop_iterations: u32,
+    /// Expression generator: deliberately *paired* boundary operands
+    /// (`min / -1`, `min * -1`, `-min`, `min - 1`, `max + 1`, `min MOD -1`, REAL `MAX * 2`, ...)
+    /// as literals or variables, in addition to the independent boundary bias of literals.
+    /// Off by default: existing tapes keep generating the same programs.
+    #[serde(default)]
+    pub boundary_pairs: bool,
+    /// Trace generator: some cycles are "boundary bursts" that set *every* integer / real input
+    /// variable to one of {min, -1, max, 1, 0, min+1, max-1}, so that variable-only
+    /// expressions meet the paired extremes too. Off by default (same reason).
+    #[serde(default)]
+    pub trace_boundary_bursts: bool,
 }
 
 impl GenConfig {
@@ -104,6 +115,8 @@ impl GenConfig {
             max_vars: 10,
             max_cycles: 5,
             max_loop_iterations: 6,
+            boundary_pairs: false,
+            trace_boundary_bursts: false,
         }
     }
     pub fn implicit_core() -> GenConfig {
